@@ -400,16 +400,12 @@ walk_stmts = _walk_stmts
 
 
 def walk_no_nested(node: ast.AST):
-    """ast.walk that does not descend into nested function / class definitions or lambdas' siblings."""
-    todo = [node]
-    first = True
-    while todo:
-        n = todo.pop()
-        if not first and isinstance(n, (ast.FunctionDef, ast.AsyncFunctionDef, ast.ClassDef)):
+    """Pre-order walk in source order that does not descend into nested function / class definitions."""
+    yield node
+    for child in ast.iter_child_nodes(node):
+        if isinstance(child, (ast.FunctionDef, ast.AsyncFunctionDef, ast.ClassDef)):
             continue
-        first = False
-        yield n
-        todo.extend(ast.iter_child_nodes(n))
+        yield from walk_no_nested(child)
 
 
 def norm(node: ast.AST) -> str:
